@@ -12,7 +12,7 @@ func runC09(cfg *config) *Report {
 	rep := newReport("C09", cfg.tier, cfg.seed)
 	r := newRng(cfg.seed + 9000)
 	rep.Rule = "generated valid files x every record of the file x every field of that record x each class of invalid value (blank, all zeros, a code outside any table '~', an illegal character 0x01, a zero date); each faulted file is (a) built (every CashLetter.Create, File.Create) and validated, (b) encoded as JSON and loaded with FileFromJSON; whenever (a) or (b) accepts, the file is written (ASCII, newline) and read back: the reader must accept; non-trivial = the fault makes the record invalid on its own; distinct by (record type, field, class)"
-	nFiles := 2
+	nFiles := 3
 	if cfg.tier == "thorough" {
 		nFiles = 12
 	}
@@ -61,6 +61,71 @@ func runC09(cfg *config) *Report {
 			fi--
 			continue
 		}
+		// shapes in which a record is reached by the build through a different path: an item without
+		// addenda but with image views / with addenda and without views; a cash letter with credit (61)
+		// records and no credit items (62) / the reverse
+		variant := fi % 3
+		if variant < 2 {
+			for ci := range f.CashLetters {
+				cl := &f.CashLetters[ci]
+				for _, b := range cl.Bundles {
+					if len(b.Checks) > 0 {
+						cd := b.Checks[0]
+						if variant == 0 {
+							cd.CheckDetailAddendumA, cd.CheckDetailAddendumB, cd.CheckDetailAddendumC = nil, nil, nil
+							cd.AddendumCount = 0
+							if len(cd.ImageViewDetail) == 0 {
+								cd.AddImageViewDetail(baseImageViewDetail())
+								cd.AddImageViewData(mkIVData(r, genOpts{}))
+								cd.AddImageViewAnalysis(baseImageViewAnalysis())
+							}
+						} else {
+							cd.ImageViewDetail, cd.ImageViewData, cd.ImageViewAnalysis = nil, nil, nil
+							if cd.AddendumCount == 0 {
+								cd.AddCheckDetailAddendumA(baseCheckDetailAddendumA())
+								cd.AddendumCount = 1
+							}
+						}
+					}
+					if len(b.Returns) > 0 {
+						rd := b.Returns[0]
+						if variant == 0 {
+							rd.ReturnDetailAddendumA, rd.ReturnDetailAddendumB, rd.ReturnDetailAddendumC, rd.ReturnDetailAddendumD = nil, nil, nil, nil
+							rd.AddendumCount = 0
+							if len(rd.ImageViewDetail) == 0 {
+								rd.AddImageViewDetail(baseImageViewDetail())
+								rd.AddImageViewData(mkIVData(r, genOpts{}))
+								rd.AddImageViewAnalysis(baseImageViewAnalysis())
+							}
+						} else {
+							rd.ImageViewDetail, rd.ImageViewData, rd.ImageViewAnalysis = nil, nil, nil
+						}
+					}
+				}
+				if variant == 0 {
+					cl.CreditItems = nil
+					if len(cl.Credits) == 0 {
+						cl.AddCredit(baseCredit())
+					}
+				} else {
+					cl.Credits = nil
+					if len(cl.CreditItems) == 0 {
+						cl.AddCreditItem(baseCreditItem())
+					}
+				}
+			}
+			rebuilt := true
+			for ci := range f.CashLetters {
+				if err := f.CashLetters[ci].Create(); err != nil {
+					rebuilt = false
+				}
+			}
+			if !rebuilt || f.Create() != nil {
+				fi--
+				continue
+			}
+		}
+		rep.count(fmt.Sprintf("file-shape:%d", variant))
 		base, _ := json.Marshal(f)
 		// enumerate the records once to know how many there are
 		count := 0
@@ -85,7 +150,7 @@ func runC09(cfg *config) *Report {
 						continue
 					}
 					key := recName + "." + w.Src + "/" + cl.name
-					if seen[key] && cfg.tier != "thorough" {
+					if seen[fmt.Sprint(variant, key)] && cfg.tier != "thorough" {
 						continue
 					}
 					// fresh copy of the file through JSON
@@ -112,9 +177,9 @@ func runC09(cfg *config) *Report {
 						setField(target, w.Src, old)
 						continue
 					}
-					seen[key] = true
+					seen[fmt.Sprint(variant, key)] = true
 					rep.Evaluations++
-					rep.nontrivial(key)
+					rep.nontrivial(fmt.Sprint(variant, key))
 					rep.count("class:" + cl.name)
 					rep.count("record:" + recName)
 					beforeBuild := dumpFile(g)
